@@ -164,9 +164,13 @@ def gen_query(rnd, st, v=None):
     if v >= 36 and len(sufs) >= 2 and rnd.random() < 0.4:
         q['same_subtree'] = [_setrec(rnd.sample(sufs, rnd.randint(2, len(sufs))))]
     # a resourceless group that only positions the others in a subtree (1.36)
-    if v >= 36 and len(sufs) >= 1 and rnd.random() < 0.15:
+    if v >= 36 and len(sufs) >= 1 and rnd.random() < 0.25:
+        # (a resourceless group always carries a trait filter here: one with
+        # nothing but in_tree matches no provider in the implementation and the
+        # documentation does not say what it should mean)
         g = {'suffix': '_ROOT', 'res': {}, 'required': [_setrec([rnd.choice(TRAITS)])],
-             'forbidden': {}, 'member_of': [], 'forbidden_aggs': {}, 'in_tree': ''}
+             'forbidden': {}, 'member_of': [], 'forbidden_aggs': {},
+             'in_tree': rnd.choice(provs) if provs and rnd.random() < 0.4 else ''}
         groups.append(g)
         q['same_subtree'] = q['same_subtree'] + [_setrec([g['suffix']] + sufs[:1])]
         if q['policy'] == '':
